@@ -1087,6 +1087,8 @@ class Evaluator:
             if key and key in st.env:
                 return [(st.env[key], st, 'ok')]
             d = self.P.resolve(mod, e, fi) if not _rooted_in_env(e, st) else None
+            if d == 'numpy.newaxis':
+                return [(NONE, st, 'ok')]          # np.newaxis is None
             if d is not None:
                 return [(('ref', d), st, 'ok')]
             return [((('attr', t, e.attr)), s2, k) if k == 'ok' else (t, s2, k)
